@@ -7,7 +7,7 @@ from typing import Dict, List, Optional, Set
 from .. import cfg as cfgmod
 from .. import regexast
 from ..absint import Const, IntIv, Interp, StrOf, Tup, as_iv
-from ..astutil import is_attr_of, alias_map, call_name, expand_alias, fstring_parts, kwarg, literal
+from ..astutil import is_attr_of, alias_map, call_name, const_int, expand_alias, fstring_parts, kwarg, literal
 from ..index import AnalysisError, AnchorVanished, norm, short, walk_local
 from .c18 import _color
 
@@ -70,6 +70,8 @@ def r19_2(ctx):
                     iv = as_iv(o.value.items[0].inner)
                     if iv and iv[0] == iv[1]:
                         codes.add(int(iv[0]))
+                elif o.kind == "return" and isinstance(o.value, Tup) and len(o.value.items) == 1 and isinstance(o.value.items[0], Const) and isinstance(o.value.items[0].v, str) and o.value.items[0].v.isascii() and o.value.items[0].v.isdigit():
+                    codes.add(int(o.value.items[0].v))  # str() of a known integer, folded by the interpreter
             n_cases += 1
             want = ("" if fg else "on ") + f"color({n})"
             ok = len(codes) == 1 and sgr.get(next(iter(codes))) == want
@@ -538,7 +540,32 @@ def r19_4(ctx):
         maxsplit = call.args[1] if len(call.args) > 1 else kwarg(call, "maxsplit")
         ok = maxsplit is not None
         ctx.check(ok, f.fq, short(n), where, "split with maxsplit keeps the rest of the URL", "the OSC-8 payload is split on every ';' and one piece is taken as the URL: a link URL that itself contains ';' is truncated by the decoder although the encoder wrote it in full")
-    ctx.shape("osc.startswith('8;')" in src, f.fq, "osc.startswith('8;')", f.where, "only OSC 8 is interpreted as a link", "the decoder no longer checks for the OSC 8 prefix")
+    prefix_ok = "osc.startswith('8;')" in src
+    if not prefix_ok and kind == "split" and isinstance(n.targets[0], ast.Name) and norm(call.func.value) == "osc":
+        # the whole payload is split: `fields = osc.split(';', 2)` - the selector test is `fields[0] == '8'` (together with the
+        # field count) on every path to the update_link call, and the URL is the LAST field
+        fields = n.targets[0].id
+        from .. import cfg as _cfg194
+        g194 = _cfg194.build(f.node)
+        ups = [nd for nd in g194.stmt_nodes() if nd.kind == "stmt" and any(isinstance(x, ast.Call) and norm(x.func).endswith("update_link") for x in ast.walk(nd.stmt))]
+
+        def conj(t):
+            return [c_ for v_ in t.values for c_ in conj(v_)] if isinstance(t, ast.BoolOp) and isinstance(t.op, ast.And) else [t]
+        ms = const_int(maxsplit) if maxsplit is not None else None
+        for nd in ups:
+            facts = {norm(c_) for t_, v_ in g194.branch_facts(nd.id) if v_ is True for c_ in conj(t_)}
+            sel = f"{fields}[0] == '8'" in facts or f"'8' == {fields}[0]" in facts
+            cnt = ms is not None and (f"len({fields}) == {ms + 1}" in facts or f"len({fields}) > {ms}" in facts or f"len({fields}) >= {ms + 1}" in facts)
+            uc = [x for x in ast.walk(nd.stmt) if isinstance(x, ast.Call) and norm(x.func).endswith("update_link")][0]
+            url = uc.args[0] if uc.args else None
+            if isinstance(url, ast.BoolOp) and isinstance(url.op, ast.Or) and norm(url.values[-1]) == "None":
+                url = url.values[0]
+            last = url is not None and ms is not None and norm(url) in (f"{fields}[{ms}]", f"{fields}[-1]")
+            ctx.check(sel and cnt and last, f.fq, short(nd.stmt), f"{f.module.relpath}:{nd.lineno}",
+                      "the payload is split into selector, parameters and URL: the link is applied only for selector '8', a complete field list, and with the last field as the URL",
+                      f"`{short(nd.stmt)}`: the running link is replaced without the test that the OSC selector is 8 and that all {ms + 1 if ms is not None else '?'} fields are present, or not with the last field - another OSC sequence (window title ..) would be read as a hyperlink")
+        prefix_ok = bool(ups)
+    ctx.shape(prefix_ok, f.fq, "osc.startswith('8;')", f.where, "only OSC 8 is interpreted as a link", "the decoder no longer checks for the OSC 8 prefix")
 
 
 def r19_5(ctx):
